@@ -463,7 +463,11 @@ impl<'a> TransactionRebase<'a> {
                 Operation::Overwrite { .. } | Operation::Restore { .. } => Err(
                     self.incompatible_conflict_err(other_transaction, other_version, location!())
                 ),
-                Operation::UpdateMemWalState { added, updated, .. } => {
+                Operation::UpdateMemWalState {
+                    added,
+                    updated,
+                    removed,
+                } => {
                     self.check_update_mem_wal_state_not_modify_same_mem_wal(
                         added,
                         mem_wal_to_merge.as_slice(),
@@ -476,6 +480,17 @@ impl<'a> TransactionRebase<'a> {
                         other_transaction,
                         other_version,
                     )?;
+                    // The MemWAL to merge was trimmed in the meantime (it had been merged by
+                    // another job): marking it as merged would add it back.
+                    if let Some(mem_wal_to_merge) = mem_wal_to_merge {
+                        if removed.iter().any(|m| m.id == mem_wal_to_merge.id) {
+                            return Err(self.incompatible_conflict_err(
+                                other_transaction,
+                                other_version,
+                                location!(),
+                            ));
+                        }
+                    }
                     Ok(())
                 }
             }
